@@ -93,6 +93,15 @@ func (r *Recorder) Case() {
 	r.mu.Unlock()
 }
 
+// CaseN counts n evaluated cases at once (a generated set checked against n inputs).
+func (r *Recorder) CaseN(n int64) {
+	r.mu.Lock()
+	if !r.failed {
+		r.st.Cases += n
+	}
+	r.mu.Unlock()
+}
+
 // Class counts one occurrence of a named class of cases/events.
 func (r *Recorder) Class(name string) { r.ClassN(name, 1) }
 
